@@ -1662,4 +1662,86 @@ example : ∃ o, harnessObj true "iternone" [10, 11, 12, 13] = some o ∧ Holds 
 
 end Objects
 
+/-! ## The value classes `seq` / `iter` are objects of the enumerator model
+
+`Val.seq` and `Val.iter` (the classes the streams of the earlier rounds run on) are the special cases
+`vecObj` / `iterObj` of `MJ.Sub.Obj`: both models give the same subscripts and the same slices. -/
+section Coherence
+open MJ.Sub
+variable {α : Type}
+
+/-- the engine's own sequence objects (`Vec`, `VecDeque`, arrays, `GroupTuple`: `ObjectRepr::Seq`,
+    `Enumerator::Seq(len)`, `get_value` by position) as objects of the enumerator model -/
+def vecObj (xs : List α) : Obj α := ⟨true, "Seq", [], xs.length, (0, Option.none), xs⟩
+
+/-- iterables built by `Value::make_iterable` / `make_object_iterable` and the lazy results of slices
+    (`ObjectRepr::Iterable`, `mapped_enumerator` = `Enumerator::Iter`, no `get_value`); `sized`: the
+    size hints are exact -/
+def iterObj (sized : Bool) (xs : List α) : Obj α :=
+  ⟨false, "Iter", xs, 0, if sized then (xs.length, some xs.length) else (0, Option.none), []⟩
+
+theorem vecObj_holds (xs : List α) : Holds (vecObj xs) xs := by
+  refine ⟨⟨by show "Seq" ∈ _; decide, by show "Seq" ≠ _; decide⟩, fun _ => ⟨rfl, rfl⟩, fun h => ?_, fun h => absurd rfl h,
+   fun a h => by simp [vecObj] at h, fun _ => rfl, fun h => by simp [vecObj] at h⟩
+  exact absurd (show "Seq" = "Empty" from h) (by decide)
+
+theorem iterObj_holds (sized : Bool) (xs : List α) : Holds (iterObj sized xs) xs := by
+  refine ⟨⟨by show "Iter" ∈ _; decide, by show "Iter" ≠ _; decide⟩, fun h => ?_, fun h => ?_, fun _ _ => rfl, ?_,
+    fun h => by simp [iterObj] at h, fun _ => Or.inl rfl⟩
+  · exact absurd (show "Iter" = "Seq" from h) (by decide)
+  · exact absurd (show "Iter" = "Empty" from h) (by decide)
+  · intro a h
+    cases sized with
+    | true => simp only [iterObj, if_true, Prod.mk.injEq] at h; exact h.1.symm
+    | false => simp [iterObj] at h
+
+/-- the value classes `seq` and `iter` of `MJ.Sub.Val` are these objects: `get_item_opt` agrees -/
+theorem getItemOpt_seq_is_obj (xs : List α) (key : Val α) (hl : xs.length < 9223372036854775808) :
+    getItemOpt (.seq xs) key = (objGetItem (vecObj xs) key).map Item.elem := by
+  cases hk : valI64 key with
+  | none =>
+    rw [getItemOpt_not_i64 (.seq xs) key (.list xs) rfl hk hl, objGetItem_not_i64 _ xs (vecObj_holds xs) key hk hl]; rfl
+  | some i =>
+    rw [getItemOpt_of_i64 (.seq xs) key (.list xs) i rfl hk, objGetItem_eq_python _ xs (vecObj_holds xs) key i hk, index_eq_python]
+    simp only [isOnce, Bool.false_and, Bool.false_eq_true, if_false, PySeq.index, PySeq.len]
+    cases PySlice.index xs.length i <;> rfl
+
+theorem getItemOpt_iter_is_obj (sized : Bool) (xs : List α) (key : Val α) (hl : xs.length < 9223372036854775808) :
+    getItemOpt (.iter sized xs) key = (objGetItem (iterObj sized xs) key).map Item.elem := by
+  cases hk : valI64 key with
+  | none =>
+    rw [getItemOpt_not_i64 (.iter sized xs) key (.list xs) rfl hk hl, objGetItem_not_i64 _ xs (iterObj_holds sized xs) key hk hl]; rfl
+  | some i =>
+    rw [getItemOpt_of_i64 (.iter sized xs) key (.list xs) i rfl hk, objGetItem_eq_python _ xs (iterObj_holds sized xs) key i hk, index_eq_python]
+    simp only [isOnce, Bool.false_and, Bool.false_eq_true, if_false, PySeq.index, PySeq.len]
+    cases PySlice.index xs.length i <;> rfl
+
+/-- … and so does `ops::slice`: the items of the lazy result are the object model's -/
+theorem sliceV_seq_is_obj (xs : List α) (a b c : Val α) (A B C : Option Int)
+    (ha : optBound a = .ok A) (hb : optBound b = .ok B) (hc : optBound c = .ok C) (hl : xs.length < 9223372036854775808) :
+    (∃ e, sliceV (.seq xs) a b c = .ok (.error e) ∧ objSliceV (vecObj xs) a b c = .ok (.error e)) ∨
+    (∃ sized ys, sliceV (.seq xs) a b c = .ok (.ok (.iter sized ys)) ∧ objSliceV (vecObj xs) a b c = .ok (.ok ys)) := by
+  have h2 := objSliceV_of_bounds (vecObj xs) xs (vecObj_holds xs) a b c A B C ha hb hc hl
+  by_cases h0 : C.getD 1 = 0
+  · rw [if_pos h0] at h2
+    refine Or.inl ⟨_, ?_, h2⟩
+    unfold sliceV
+    simp only [ha, hb, hc, h0, if_true]
+  · rw [if_neg h0] at h2
+    refine Or.inr ⟨true, _, ?_, h2⟩
+    have hA := optBound_range a A ha
+    have hB := optBound_range b B hb
+    have hst := getD_range C (optBound_range c C hc)
+    unfold sliceV
+    simp only [ha, hb, hc, h0, if_false, sliceClass_seq, String.reduceEq]
+    rw [slice_list_ok _ A B _ hA hB hst h0 hl]
+    rfl
+
+example : objGetItem (vecObj [10, 11, 12]) (Val.num (.i64 (-1)) : Val Nat) = some 12 ∧
+    getItemOpt (Val.seq [10, 11, 12]) (Val.num (.i64 (-1)) : Val Nat) = some (.elem 12) ∧
+    (iterObj false [10, 11, 12]).queryLen = Option.none ∧
+    objGetItem (iterObj false [10, 11, 12]) (Val.num (.i64 (-3)) : Val Nat) = some 10 := by decide
+
+end Coherence
+
 end MJ.C09
